@@ -406,6 +406,6 @@ def check_deep(data: dict, lab: Labels) -> None:
             n.detach_self()
 
 
-PARTS = [Part("trees", check_tree, strategy=st_case, quick=2400, thorough=64000),
+PARTS = [Part("trees", check_tree, strategy=st_case, quick=7200, thorough=160000),
          Part("deep", check_deep, enumerate=enum_deep,
               exhaustive_note="4 chain shapes x depth 2x (thorough: and 4x) the recursion limit x {plain, skip_self, prune, both}")]
